@@ -295,6 +295,9 @@ class TreeFn:
             if left.attr == "history" and right.value == "deep":
                 return wrap(f"(is_deep m {recv})")
             self.fail(e, "string comparison")
+        if isinstance(op, ast.Gt) and isinstance(left, ast.Name) and isinstance(right, ast.Name) \
+                and env.get(left.id) == "nat" and env.get(right.id) == "nat":
+            return f"(Nat.ltb {self.v(right.id)} {self.v(left.id)})"
         # len(l) > 1
         if isinstance(op, ast.Gt) and isinstance(left, ast.Call) and isinstance(left.func, ast.Name) and left.func.id == "len" \
                 and len(left.args) == 1 and isinstance(right, ast.Constant) and right.value == 1:
@@ -416,9 +419,9 @@ class TreeFn:
                 g = e.args[0]
                 if len(g.generators) == 1 and isinstance(g.generators[0].target, ast.Name) and not g.generators[0].ifs:
                     var = g.generators[0].target.id
-                    it, _ = self.iterable(g.generators[0].iter, env)
+                    it, tit = self.iterable(g.generators[0].iter, env)
                     env2 = dict(env)
-                    env2[var] = "node"
+                    env2[var] = ELEM[tit]
                     return f"(existsb (fun {self.v(var)} => {self.test(g.elt, env2)}) {it})", "bool"
             if f.id == "next" and len(e.args) == 2 and not kw and isinstance(e.args[0], ast.GeneratorExp) \
                     and isinstance(e.args[1], ast.Constant) and e.args[1].value is None:
@@ -1076,6 +1079,7 @@ def translate_all(src_root=None):
     out.append(translate_skeletons(src_root))
     out.append(translate_process_event(src_root, known, known_params, known_recursive))
     out.append(translate_dispatch(src_root, known, known_params, known_recursive))
+    out.append(translate_settle(src_root, known, known_params, known_recursive))
     return "\n".join(out)
 
 
@@ -1631,6 +1635,47 @@ def translate_dispatch(src_root, known, known_params, known_recursive):
         seg = ast.get_source_segment(text, fdef) or ""
         out.append(f"(* {fname} :: {func}  sha256[:16]={hashlib.sha256(seg.encode()).hexdigest()[:16]}: how a selected transition is dispatched *)")
         out.append(fn.translate())
+    return "\n".join(out)
+
+
+# ---------------------------------------------------------------------------------------------------------------------
+# the settle loop of eventless transitions (_process_transient_transitions / _settle_transient_transitions): its shape is
+# checked and its two tests are translated - when the loop is CUT (the microstep counter against maxIterations) and when it
+# GOES ON (something selected for the empty event type, among it an eventless transition)
+def translate_settle(src_root, known, known_params, known_recursive):
+    out = []
+    for fname, cls, func, suffix, proc in (("sync_interpreter.py", "SyncInterpreter", "_process_transient_transitions", "sync", "self._process_event(transient_event)"),
+                                           ("interpreter.py", "Interpreter", "_settle_transient_transitions", "async", "await self._process_event(transient_event)")):
+        text, fdef = _find_method(src_root, fname, cls, func)
+        src = f"{fname}:{func}"
+        body = [st for st in fdef.body if not _is_logger(st) and not (isinstance(st, ast.Expr) and isinstance(st.value, ast.Constant))]
+
+        def bad(why):
+            raise Untranslatable(f"{src}: settle loop: {why}")
+        if [ast.unparse(x) for x in body[:2]] != ["iterations = 0", "limit = getattr(self.machine, 'max_iterations', 1000)"] or len(body) != 3 \
+                or not isinstance(body[2], ast.While) or ast.unparse(body[2].test) != "True" or body[2].orelse:
+            bad("expected `iterations = 0; limit = maxIterations; while True: ...`")
+        lb = [st for st in body[2].body if not _is_logger(st)]
+        if len(lb) != 5 or ast.unparse(lb[0]) != "iterations += 1" or not isinstance(lb[1], ast.If) or lb[1].orelse \
+                or [ast.unparse(x) for x in lb[1].body if not _is_logger(x)] != ["break"] \
+                or ast.unparse(lb[2]) != "transient_event = Event(type='')" \
+                or ast.unparse(lb[3]) != "selected = self._select_transitions(transient_event)" or not isinstance(lb[4], ast.If) \
+                or [ast.unparse(x) for x in lb[4].body if not _is_logger(x)] != [proc] \
+                or [ast.unparse(x) for x in lb[4].orelse if not _is_logger(x)] != ["break"]:
+            bad("expected `iterations += 1; if <cut>: break; transient_event = Event(type=''); selected = select(transient_event); "
+                "if <goes on>: process_event(transient_event) else: break`")
+        seg = ast.get_source_segment(text, fdef) or ""
+        out.append(f"(* {fname} :: {func}  sha256[:16]={hashlib.sha256(seg.encode()).hexdigest()[:16]}: shape checked; the two tests of the loop *)")
+        for name, test, params in ((f"settle_cut_{suffix}", lb[1].test, [("iterations", "nat"), ("limit", "nat")]),
+                                   (f"settle_goes_on_{suffix}", lb[4].test, [("selected", "trns")])):
+            synth = ast.FunctionDef(name=func, args=ast.arguments(posonlyargs=[], args=[ast.arg(arg="self")] + [ast.arg(arg=p_) for p_, _ in params],
+                                                                   kwonlyargs=[], kw_defaults=[], defaults=[]),
+                                    body=[ast.Return(value=test)], decorator_list=[], lineno=fdef.lineno)
+            ast.fix_missing_locations(synth)
+            fn = TreeFn(synth, dict(func=func, coqname=name, params=params, ret="bool", needs=[]), src, known)
+            fn.known_params = known_params
+            fn.known_recursive = known_recursive
+            out.append(fn.translate())
     return "\n".join(out)
 
 
